@@ -4,6 +4,7 @@
 #include "vf_main.hpp"
 #include "mcmap.hpp"
 #include "hep/mc-mpi.hpp"
+#include <sstream>
 
 typedef VF_T T;
 using namespace vf;
@@ -143,8 +144,19 @@ template <typename E> void engine_case(Rng& rng, char const* ename)
                 for (std::size_t b = 0; b <= bins; ++b) pdf.set_bin_left(d, b, x[b]);
             }
         typedef hep::vegas_chkpt_with_rng<CE, T> chk_t;
-        auto r = hep::vegas(hep::make_integrand<T>(rec_f<hep::vegas_point<T>>, dims), calls, chk_t(initial, pdf, T(1.5)), GoOn());
-        judge_run<CE>(ename, "vegas", dims, k, calls, log, initial, r.generator(), J(info).s("integrator", "vegas").u("bins", bins), false);
+        chk_t start(initial, pdf, T(1.5));
+        bool reloaded = rng.below(3) == 0;
+        if (reloaded)
+        {
+            // a checkpoint that only knows its number of bins goes through text before the first iteration (the integrator supplies the dimensions)
+            std::ostringstream o;
+            chk_t(initial, bins, T(1.5)).serialize(o);
+            std::istringstream in(o.str());
+            start = chk_t(in);
+            count("vegas_runs_started_from_a_reloaded_never-run_checkpoint");
+        }
+        auto r = hep::vegas(hep::make_integrand<T>(rec_f<hep::vegas_point<T>>, dims), calls, start, GoOn());
+        judge_run<CE>(ename, "vegas", dims, k, calls, log, initial, r.generator(), J(info).s("integrator", "vegas").u("bins", bins).b("reloaded_before_first_iteration", reloaded), false);
     }
     else
     {
